@@ -52,6 +52,7 @@ Variable alg_known : Z -> bool.       (* algorithms go-cose supports *)
 
 Inductive eop :=
 | ESetClaims (c : claims)
+| EMutate (c : claims)            (* the caller changes the attached claims object behind the Evidence's back *)
 | ESign (validating : bool) (s : signer)
 | EDecode (t : token)
 | EVerify (k : N).
@@ -77,6 +78,7 @@ Definition step (e : ev) (o : eop) : ev * eout :=
       | Ok _ => ({| e_claims := Some c; e_msg := e_msg e |}, OutOk)
       | _ => (e, OutErr)
       end
+  | EMutate c => ({| e_claims := Some c; e_msg := e_msg e |}, OutOk)
   | ESign validating s =>
       let e0 := {| e_claims := e_claims e; e_msg := Some fresh_msg |} in
       match e_claims e with
